@@ -97,15 +97,26 @@ def one_case(ctx, kind, inp, user_seed, points, check_model=True):
     rng = random.Random(user_seed)
     with scratch() as d:
         out = os.path.join(d, "out")
+        # the directory holds the output of an EARLIER model in half of the state-machine cases (so the run also writes LostCode files),
+        # LostCode files parked there by earlier regenerations, and some files are read-only (checked out from a version control system)
+        inp_old = presv.mutate_input(rng, kind, inp) if kind in ("py", "cs", "cpp") and user_seed % 2 == 1 else inp
+        if inp_old is not inp:
+            inp_old["name"] = inp["name"]
         try:
-            presv.run_kind(kind, out, inp)
+            presv.run_kind(kind, out, inp_old)
         except Exception:  # noqa
             ctx.count("generator_rejected_input")
             return "trivial"
         t0 = read_tree(out)
         t1 = splice(t0, presv.user_blocks(rng, t0, density=0.8))
         t1["notes/handwritten.txt"] = b"not generated, must survive\n"
+        tagged = sorted(k for k in t0 if b"USER_" in t0[k] and not k.startswith("allplatforms/"))
+        for k in tagged[:3]:
+            t1[k + ".LostCode.txt"] = b"// parked here by an earlier regeneration\nint precious_%d = 1;\n" % len(k)
         write_tree(out, t1)
+        for i, k in enumerate(sorted(t1)):
+            if (user_seed + i) % 3 == 0:
+                os.chmod(os.path.join(out, k), 0o444)
         # reference: uninterrupted run on a copy, traced
         ref = os.path.join(d, "ref")
         shutil.copytree(out, ref)
